@@ -190,6 +190,9 @@ pub struct PW {
     lims: Vec<Lim>,
     /// latest value announced per limit stream (None = none yet), and the initial parameter per stage
     params: Vec<Option<usize>>,
+    /// per stage: the largest limit in force or announced since the stream was last Pending (bound for C15 while a dynamic
+    /// Head / Tail is catching up with its limit stream)
+    lim_hi: Vec<usize>,
     batched: bool,
     flag: Arc<Flag>,
     waker: Waker,
@@ -212,7 +215,7 @@ impl PW {
             sink.line(&format!("append {}", fmt_list(init)), &format!("- vals={} woke=[]", fmt_list(init)));
         }
         let (flag, waker) = flag_waker();
-        PW { ov: Some(ov), txn: None, stream: None, specs: vec![], lims: vec![], params: vec![], batched: false, flag, waker,
+        PW { ov: Some(ov), txn: None, stream: None, specs: vec![], lims: vec![], params: vec![], lim_hi: vec![], batched: false, flag, waker,
              views: vec![], consumed: vec![], parked: false, ended: false, boundary: vec![], emitted: vec![], kf: false, sorted_once: vec![] }
     }
     fn contents(&self) -> Vec<V> { self.ov.as_ref().map(|o| o.iter().copied().collect()).unwrap_or_default() }
@@ -258,6 +261,7 @@ impl PW {
             Spec::DHead(_) | Spec::DTail(_) => Some(0),
             _ => None,
         }).collect();
+        self.lim_hi = self.params.iter().map(|p| p.unwrap_or(0)).collect();
         // sort hints for the constructors
         for (k, sp) in specs.iter().enumerate() {
             if let Spec::Sort(c) = sp { let below: Vec<V> = inits[k].iter().copied().collect(); self.hint(sink, *c, &below); }
@@ -351,6 +355,7 @@ impl PW {
             Spec::DHead(_) | Spec::DTail(_) => Some(0),
             _ => None,
         });
+        self.lim_hi.push(self.params.last().unwrap().unwrap_or(0));
         let expect = stage_spec(sp, &handed, *self.params.last().unwrap());
         let ok = match (&expect, sp) { (Some(e), _) => *e == new_init || sp.pure_dynamic(), (None, Spec::Sort(c)) => sorted_perm_of(*c, &new_init, &handed), _ => true };
         if !ok { sink.oracle_fail(&format!("{},C12", Self::prop_of(sp)), &format!("stacked stage ({}): initial values {new_init:?}, its view of {handed:?} is {expect:?}", sp.text())); }
@@ -442,7 +447,7 @@ impl PW {
     }
     pub fn limit(&mut self, sink: &mut Sink, k: usize, v: usize) {
         self.lims[k].push(v);
-        for (i, sp) in self.specs.clone().iter().enumerate() { if sp.lim() == Some(k) { self.params[i] = Some(v); } }
+        for (i, sp) in self.specs.clone().iter().enumerate() { if sp.lim() == Some(k) { self.params[i] = Some(v); self.lim_hi[i] = self.lim_hi[i].max(v); } }
         let w = self.woke();
         sink.stat("op.limit");
         sink.line(&format!("limit {k} {v}"), &format!("ok w={}", w as u8));
@@ -507,6 +512,12 @@ impl PW {
                             sink.oracle_fail("C15", &format!("stage {} ({}): after {} the view has {} items, limit {l}", k - 1, self.specs[k - 1].text(), fmt_diff(d), self.views[k].len()));
                         }
                     } }
+                    // dynamic Head / Tail: never more than the largest limit in force or announced since the last Pending
+                    if k > 0 { if let Spec::DHead(_) | Spec::DHeadI(..) | Spec::DTail(_) | Spec::DTailI(..) = self.specs[k - 1] {
+                        if !self.kf && self.views[k].len() > self.lim_hi[k - 1] {
+                            sink.oracle_fail("C15", &format!("stage {} ({}): after {} the view has {} items; no limit above {} was in force or announced", k - 1, self.specs[k - 1].text(), fmt_diff(d), self.views[k].len(), self.lim_hi[k - 1]));
+                        }
+                    } }
                 }
             }
         }
@@ -515,6 +526,17 @@ impl PW {
     /// at a quiescent point every stage's view is the correct view of the stage below it
     fn check_quiescent(&mut self, sink: &mut Sink) {
         let n = self.specs.len();
+        // the limit streams have been drained: from here on only the current limits count (C15)
+        for k in 0..n {
+            if let Some(l) = self.params[k] {
+                self.lim_hi[k] = l;
+                if let Spec::DHead(_) | Spec::DHeadI(..) | Spec::DTail(_) | Spec::DTailI(..) = self.specs[k] {
+                    if !self.kf && self.views[k + 1].len() > l {
+                        sink.oracle_fail("C15", &format!("at Pending, stage {k} ({}) shows {} items, its limit is {l}", self.specs[k].text(), self.views[k + 1].len()));
+                    }
+                }
+            }
+        }
         if self.ov.is_some() && self.views[0] != self.contents() {
             sink.oracle_fail("C06", &format!("source stream Pending with replica {:?}, contents {:?}", self.views[0], self.contents()));
         }
